@@ -365,7 +365,7 @@ fn anchor(v: f64, is_1904: bool, y: i32, mo: u32, d: u32, h: u32, mi: u32, s: u3
 fn anchor_none(v: f64, is_1904: bool) {
     assert!(ExcelDateTime::new(v, ExcelDateTimeType::DateTime, is_1904).as_datetime().is_none());
 }
-fn anchors_components() {
+fn check_anchors_components() {
     let d = NaiveDate::from_ymd_opt(2021, 10, 15);
     let t = NaiveTime::from_hms_milli_opt(19, 0, 0, 0);
     assert!(Data::Float(44484.7916666667).as_date() == d && Data::Float(44484.7916666667).as_time() == t);
@@ -376,7 +376,7 @@ fn anchors_components() {
     assert!(c.as_date() == NaiveDate::from_ymd_opt(1904, 1, 1) && c.as_time() == NaiveTime::from_hms_opt(12, 0, 0));
     assert!(Data::Float(1e20).as_date().is_none() && Data::Float(1e20).as_time().is_none());
 }
-fn anchors_duration() {
+fn check_anchors_duration() {
     let e = |v: f64| ExcelDateTime::new(v, ExcelDateTimeType::TimeDelta, false).as_duration();
     assert!(e(1.0) == Some(TimeDelta::hours(24)));
     assert!(e(1.5) == Some(TimeDelta::hours(36)));
@@ -1715,11 +1715,11 @@ fn anchors_none() {
 }
 #[kani::proof]
 fn anchors_as_date_as_time() {
-    anchors_components();
+    check_anchors_components();
 }
 #[kani::proof]
 fn anchors_duration() {
-    anchors_duration();
+    check_anchors_duration();
 }
 #[kani::proof]
 fn civil_oracle_61_4095() {
